@@ -38,7 +38,7 @@ JOBS["C20"] = [
 ]
 
 JOBS["C18"] = [
-    H("exhaustive", "store", "^TestC18Exhaustive$", {"shards": 10, "checks": 1, "timeout": 900, "env": {"VERIF_C18_L": 4}}, {"shards": 10, "checks": 1, "timeout": 3400, "env": {"VERIF_C18_L": 6}}),
+    H("exhaustive", "store", "^TestC18Exhaustive$", {"shards": 10, "checks": 1, "timeout": 900, "env": {"VERIF_C18_L": 4}}, {"shards": 10, "checks": 1, "timeout": 3400, "env": {"VERIF_C18_L": 5}}),
     H("random", "store", "^TestC18Random$", {"shards": 8, "checks": 2500, "timeout": 900}, {"shards": 14, "checks": 15000, "timeout": 3400}),
 ]
 
@@ -210,7 +210,7 @@ RULES = {
     "C04": _MACHINE + "Oracle: each PartialBeacon call leaving a node is stamped with that node's clock: clock >= genesis+(round-1)*period (harness formula); valid partials for clock round+2/+3/+10 must be refused. "
            "Non-trivial: case with a burst, skew/stall, stall release, restart or a future-partial injection; distinct by configuration + full action history.",
     "C18": "exhaustive part: for each back-end (bolt trimmed, trimmed+previous-required, untrimmed, untrimmed+previous-required, memdb ring of 10 empty, ring of 10 pre-filled to capacity) every Put/Del sequence "
-           "over a 4-round alphabet ({0,1,2,3}; ring pre-filled: {20..23}; bolt back-ends additionally {255,256,257,65536}, whose numeric order differs from the byte order of any non-big-endian key) up to length L (quick 4, thorough 6), each followed by every observation: Get of each round and a neighbour, Last, Len and every cursor session body of length <=3 over "
+           "over a 4-round alphabet ({0,1,2,3}; ring pre-filled: {20..23}; bolt back-ends additionally {255,256,257,65536}, whose numeric order differs from the byte order of any non-big-endian key) up to length L (quick 4, thorough 5), each followed by every observation: Get of each round and a neighbour, Last, Len and every cursor session body of length <=3 over "
            "{First, Next, Last, Seek(r)} (399 bodies); random part: rapid state machine of 100s of ops over rounds base+0..40 (base in {0, 240, 65520, 2^32-20, 2^56-20}: windows across the byte boundaries of the key encoding) (append, put with gaps / re-put, delete, get, last, len, reopen (bolt), "
            "cursor sessions of <=8 steps incl. Put/Del inside the open session for memdb, full First/Next scans). Oracle: reference sorted map (bolt: put replaces; ring: put keeps, only the 10 largest remain; "
            "trimmed: previous signature = stored signature of round-1 or the read fails). Non-trivial: sequence with a delete, re-put or gap (exhaustive) / a cursor after a mutation or a mutation inside a session (random); "
